@@ -407,7 +407,8 @@ Record loadcfg := mkCfg {
   c_nodist : bool; c_nomemattr : bool; c_nocpukinds : bool;
   c_dists : list nat;         (* nbobjs of every distances structure the backend added *)
   c_extra_mattrs : nat;       (* attributes registered by the backend beyond the predefined ones *)
-  c_bind_restrict : option (list nat) }.
+  c_bind_restrict : option (list nat);
+  c_xml : bool }.             (* the source is XML (hwloc_topology_set_xml / set_xmlbuffer) *)
     (* Some lives: HWLOC_TOPOLOGY_FLAG_RESTRICT_TO_CPUBINDING / _MEMBINDING is set, the binding
        was obtained and hwloc_topology_restrict(binding) ran at the very end of load *)
 
@@ -438,6 +439,15 @@ Definition load_run (t : nat) (c : loadcfg) : topo * list ev :=
   | None => (tp1, e0 ++ e1 ++ e2 ++ e3 ++ e4)
   | Some lives => let '(tp2, e5) := do_restrict t tp1 lives in (tp2, e0 ++ e1 ++ e2 ++ e3 ++ e4 ++ e5)
   end.
+
+(* hwloc_xml_component_instantiate (at set_xml time): hwloc_nolibxml_import(), then the libxml backend's
+   hwloc_libxml2_init_once() *)
+Definition load_statics (c : loadcfg) (g : glob) : glob * list ev :=
+  if c_xml c then
+    let '(g1, e1) := static_use SNolibxmlImport g in
+    let '(g2, e2) := (if g_libxml g then libxml_init_once g1 else (g1, [])) in
+    (g2, e1 ++ e2)
+  else (g, []).
 
 Inductive op :=
 | OInit (t : nat)                 (* hwloc_topology_init: slot t must be free *)
@@ -479,8 +489,9 @@ Definition run_op (s : state) (o : op) : state * result * list ev :=
   | OLoad t c =>
       match get_topo s t with
       | Some tp => if t_loaded tp then (s, [0], [Rd (LTree t)])      (* EBUSY *)
-                   else let '(tp', e) := load_run t c in
-                        (mkState (set_slot (s_topos s) t (Some tp')) (s_glob s), [1], e)
+                   else let '(g', e0) := load_statics c (s_glob s) in
+                        let '(tp', e) := load_run t c in
+                        (mkState (set_slot (s_topos s) t (Some tp')) g', [1], e0 ++ e)
       | None => (s, [0], [])
       end
   | ODestroy t =>
